@@ -10,9 +10,11 @@ import YaegiVerif.Generated.C08
   What is proved here is isolation of interpreter state under sequentially consistent interleaving:
   every activation sees only its own arguments, locals and channels, for EVERY schedule, provided no
   generated closure writes a variable of its generator (the table `closureWrites`, regenerated from the
-  source).  Today the table is `[_select: cases]`, so the statement holds for every statement kind except
-  `select` (`isolation_partial`), fails for `select` (`select_crosstalk_witness`, finding F08) and holds for
-  all programs once `_select` copies `cases` per execution (`isolation_fixed`).
+  source).  Since the repair of F08 (`_select` copies its case vector per execution) the regenerated table is
+  empty, so the statement holds at full strength for ALL programs, `select` included (`isolation_fixed`).
+  The table before the repair, `[_select: cases]`, is kept as `closureWritesOld`: the `old_table_…` theorems
+  state what it allowed (cross-talk between two goroutines executing one select statement) and what held
+  nevertheless (every statement kind except `select`).
   Data races in the sense of the Go memory model are outside the model (correspondence only: race detector).
 -/
 namespace YaegiVerif.Props.C08
@@ -107,18 +109,36 @@ def IsolationStatement (cw : CW) : Prop :=
   ∀ (prog : List Stmt) (σ : State) (sched : List Pick) (i : Nat), Disjoint σ → Owned σ →
     trace i (run cw prog sched σ) = trace i (runSolo cw prog i sched σ)
 
-/-- with no closure writing generator-level variables (the state after the minimal repair of F08) the
-    property holds for ALL programs, `select` included -/
-theorem isolation_fixed : IsolationStatement Expected.C08.closureWritesFixed := by
-  intro prog σ sched i hd ho
-  exact isolation [] prog (fun _ _ => rfl) σ hd ho sched i
+theorem noshare_generated (prog : List Stmt) : NoShare Generated.C08.closureWrites prog := by
+  intro s _
+  rw [closurewrites_tie]
+  simp [shared, writesOf, Expected.C08.closureWrites]
 
-/-! ### F08: one `select` statement executed by two goroutines -/
+/-- HEADLINE, FULL STRENGTH (table regenerated from the current source): for ALL programs — `select` included —
+    all initial states with private channels and ALL schedules, the trace of every activation is the trace of
+    that activation run alone -/
+theorem isolation_fixed : IsolationStatement Generated.C08.closureWrites := by
+  intro prog σ sched i hd ho
+  unfold trace
+  rw [isolation_act _ prog (noshare_generated prog) σ hd ho sched i]
+
+/-- … the whole activation (frame, pc, pending operands, output), not only its trace -/
+theorem isolation_act_fixed (prog : List Stmt) (σ : State) (hd : Disjoint σ) (ho : Owned σ) (sched : List Pick) (i : Nat) :
+    (run Generated.C08.closureWrites prog sched σ).acts[i]? = (runSolo Generated.C08.closureWrites prog i sched σ).acts[i]? :=
+  isolation_act _ prog (noshare_generated prog) σ hd ho sched i
+
+/-- FULL STRENGTH: every program, whether or not its goroutines share channels, runs under every schedule
+    exactly as on an interpreter without any per-statement state -/
+theorem refines_ideal_fixed (prog : List Stmt) (sched : List Pick) (σ : State) :
+    run Generated.C08.closureWrites prog sched σ = run [] prog sched σ :=
+  refines_ideal _ prog (noshare_generated prog) sched σ
+
+/-! ### F08 (repaired): one `select` statement executed by two goroutines -/
 
 /-- two workers run `select { case v := <-own: fmt.Println(v) }`, each with a private channel holding one value -/
 def xProg : List Stmt := [.select [⟨.recv, 0, 0, 1⟩], .print 0, .halt]
 def xState : State := mkState [mkAct [0] [0], mkAct [0] [1]] [⟨[10], 1, false⟩, ⟨[20], 1, false⟩]
-/-- worker 0 fills `cases`, worker 1 fills `cases`, worker 0 calls reflect.Select -/
+/-- worker 0 fills its case vector, worker 1 fills its own, worker 0 calls reflect.Select -/
 def xSched : List Pick := [⟨0, 0⟩, ⟨1, 0⟩, ⟨0, 0⟩, ⟨0, 0⟩, ⟨0, 0⟩]
 
 theorem xState_ok : Disjoint xState ∧ Owned xState := by
@@ -138,75 +158,71 @@ theorem xState_ok : Disjoint xState ∧ Owned xState := by
     | 1 => simp [xState, mkState, mkAct] at ha; subst ha; simp at hc
     | i + 2 => simp [xState, mkState] at ha
 
-/-- worker 0 prints the value that was sent on worker 1's private channel -/
-theorem select_crosstalk_trace :
-    trace 0 (run Generated.C08.closureWrites xProg xSched xState) = [20] ∧
-    trace 0 (runSolo Generated.C08.closureWrites xProg 0 xSched xState) = [10] := by
+/-- REGRESSION EXAMPLE (also the non-vacuity example of `isolation_fixed`: a program WITH a select executed by two
+    activations, an interleaving schedule, both invariants satisfied): with the table of the current source the
+    schedule that used to deliver worker 1's value to worker 0 delivers each worker its own value -/
+theorem select_isolated_now :
+    trace 0 (run Generated.C08.closureWrites xProg xSched xState) = [10] ∧
+    trace 0 (runSolo Generated.C08.closureWrites xProg 0 xSched xState) = [10] ∧
+    trace 1 (run Generated.C08.closureWrites xProg (xSched ++ [⟨1, 0⟩, ⟨1, 0⟩, ⟨1, 0⟩]) xState) = [20] := by
   rw [closurewrites_tie]; decide
 
-/-- WITNESS (F08): with the table read from the current source the full statement is false -/
-theorem select_crosstalk_witness : ¬ IsolationStatement Generated.C08.closureWrites := by
+/-- WHAT THE OLD TABLE ALLOWED (F08): worker 0 prints the value that was sent on worker 1's private channel -/
+theorem old_table_crosstalk_trace :
+    trace 0 (run Expected.C08.closureWritesOld xProg xSched xState) = [20] ∧
+    trace 0 (runSolo Expected.C08.closureWritesOld xProg 0 xSched xState) = [10] := by decide
+
+/-- … so the full statement was false for the table `[_select: cases]` -/
+theorem old_table_crosstalk_witness : ¬ IsolationStatement Expected.C08.closureWritesOld := by
   intro h
   have := h xProg xState xSched 0 xState_ok.1 xState_ok.2
-  rw [select_crosstalk_trace.1, select_crosstalk_trace.2] at this
+  rw [old_table_crosstalk_trace.1, old_table_crosstalk_trace.2] at this
   exact absurd this (by decide)
 
-/-- send direction: worker 0's `select { case own <- v: }` deposits a value in worker 1's channel (and it is
-    worker 1's value: `cases[i].Send` is shared too); worker 0's own channel stays empty -/
+/-- send direction: with the old table worker 0's `select { case own <- v: }` deposits a value in worker 1's
+    channel (and it is worker 1's value: `cases[i].Send` was shared too) and its own channel stays empty; with
+    the table of the current source every worker sends its own value on its own channel -/
 def sProg : List Stmt := [.select [⟨.send, 0, 0, 1⟩], .halt]
 def sState : State := mkState [mkAct [7] [0], mkAct [9] [1]] [⟨[], 2, false⟩, ⟨[], 2, false⟩]
 
-theorem select_send_crosstalk_witness :
-    ((run Generated.C08.closureWrites sProg [⟨0, 0⟩, ⟨1, 0⟩, ⟨0, 0⟩, ⟨1, 0⟩] sState).heap 0).buf = [] ∧
-    ((run Generated.C08.closureWrites sProg [⟨0, 0⟩, ⟨1, 0⟩, ⟨0, 0⟩, ⟨1, 0⟩] sState).heap 1).buf = [9, 9] ∧
-    ((run [] sProg [⟨0, 0⟩, ⟨1, 0⟩, ⟨0, 0⟩, ⟨1, 0⟩] sState).heap 0).buf = [7] ∧
-    ((run [] sProg [⟨0, 0⟩, ⟨1, 0⟩, ⟨0, 0⟩, ⟨1, 0⟩] sState).heap 1).buf = [9] := by
+theorem old_table_send_crosstalk :
+    ((run Expected.C08.closureWritesOld sProg [⟨0, 0⟩, ⟨1, 0⟩, ⟨0, 0⟩, ⟨1, 0⟩] sState).heap 0).buf = [] ∧
+    ((run Expected.C08.closureWritesOld sProg [⟨0, 0⟩, ⟨1, 0⟩, ⟨0, 0⟩, ⟨1, 0⟩] sState).heap 1).buf = [9, 9] := by decide
+
+theorem select_send_isolated_now :
+    ((run Generated.C08.closureWrites sProg [⟨0, 0⟩, ⟨1, 0⟩, ⟨0, 0⟩, ⟨1, 0⟩] sState).heap 0).buf = [7] ∧
+    ((run Generated.C08.closureWrites sProg [⟨0, 0⟩, ⟨1, 0⟩, ⟨0, 0⟩, ⟨1, 0⟩] sState).heap 1).buf = [9] := by
   rw [closurewrites_tie]; decide
 
-/-- the decidable domain of the partial theorem: the program has no `select` statement -/
-def Dom (prog : List Stmt) : Bool := prog.all (fun s => !s.isSelect)
+/-- programs without a `select` statement: the domain on which isolation held with the old table -/
+def NoSelect (prog : List Stmt) : Bool := prog.all (fun s => !s.isSelect)
 
-/-- with the current table exactly the `select` statements share their operand variables -/
-theorem shared_iff_select (s : Stmt) : shared Expected.C08.closureWrites s = s.isSelect := by
+/-- with the old table exactly the `select` statements shared their operand variables -/
+theorem old_table_shared_iff_select (s : Stmt) : shared Expected.C08.closureWritesOld s = s.isSelect := by
   cases s <;> rfl
 
-theorem noshare_of_dom (prog : List Stmt) (h : Dom prog = true) : NoShare Generated.C08.closureWrites prog := by
-  intro s hs
-  rw [closurewrites_tie, shared_iff_select]
-  have := List.all_eq_true.mp h s hs
-  simpa using this
-
-/-- PARTIAL (current source): isolation holds for every statement kind except `select`, for every schedule -/
-theorem isolation_partial (prog : List Stmt) (hdom : Dom prog = true) (σ : State) (hd : Disjoint σ) (ho : Owned σ)
+/-- WHAT HELD WITH THE OLD TABLE: isolation for every statement kind except `select`, for every schedule -/
+theorem old_table_isolation_partial (prog : List Stmt) (hdom : NoSelect prog = true) (σ : State) (hd : Disjoint σ) (ho : Owned σ)
     (sched : List Pick) (i : Nat) :
-    trace i (run Generated.C08.closureWrites prog sched σ) = trace i (runSolo Generated.C08.closureWrites prog i sched σ) := by
-  have hns := noshare_of_dom prog hdom
+    trace i (run Expected.C08.closureWritesOld prog sched σ) = trace i (runSolo Expected.C08.closureWritesOld prog i sched σ) := by
+  have hns : NoShare Expected.C08.closureWritesOld prog := by
+    intro s hs
+    rw [old_table_shared_iff_select]
+    have := List.all_eq_true.mp hdom s hs
+    simpa using this
   unfold trace
   rw [isolation_act _ prog hns σ hd ho sched i]
 
-/-- … and such a program runs exactly as on an interpreter without per-statement state -/
-theorem refines_ideal_partial (prog : List Stmt) (hdom : Dom prog = true) (sched : List Pick) (σ : State) :
-    run Generated.C08.closureWrites prog sched σ = run [] prog sched σ :=
-  refines_ideal _ prog (noshare_of_dom prog hdom) sched σ
-
-/-- outside `Dom` the shared statement is a `select`: nothing else is excluded -/
-theorem dom_excludes_only_select (prog : List Stmt) (h : Dom prog = false) : ∃ s ∈ prog, s.isSelect = true := by
-  unfold Dom at h
-  have : ¬ (prog.all (fun s => !s.isSelect) = true) := by simp [h]
-  rw [List.all_eq_true] at this
-  simp at this
-  exact this
-
-/-- non-vacuity: a two-worker program in `Dom` (loop: send to the own channel, receive it back, print) whose
-    schedule interleaves the workers statement by statement, with both invariants satisfied -/
+/-- non-vacuity without select: a two-worker program (loop: send to the own channel, receive it back, print) whose
+    schedule interleaves the workers statement by statement -/
 def nvProg : List Stmt :=
   [.set 1 0, .jlt 1 2 3, .halt, .send 0 1, .recv 3 4 0, .print 3, .addc 1 1 1, .jmp 1]
 def nvState : State := mkState [mkAct [0, 0, 2, 0, 0] [0], mkAct [0, 0, 2, 0, 0] [1]] [⟨[], 1, false⟩, ⟨[], 1, false⟩]
 def nvSched : List Pick := (List.range 80).map (fun k => ⟨k % 2, 0⟩)
 
 set_option maxRecDepth 8000 in
-theorem isolation_dom_nonempty :
-    Dom nvProg = true ∧ trace 0 (run Generated.C08.closureWrites nvProg nvSched nvState) = [0, 1] ∧
+theorem isolation_nonvacuous :
+    NoSelect nvProg = true ∧ trace 0 (run Generated.C08.closureWrites nvProg nvSched nvState) = [0, 1] ∧
     trace 1 (run Generated.C08.closureWrites nvProg nvSched nvState) = [0, 1] := by
   rw [closurewrites_tie]; decide
 
@@ -323,7 +339,8 @@ theorem closure_shares_cells :
 theorem locks_in_place :
     Generated.C08.goFacts.cloneLocked = true ∧ Generated.C08.goFacts.getFuncStoreLocked = true ∧
     Generated.C08.goFacts.getFuncRestoreLocked = true ∧ Generated.C08.goFacts.selectDoneLocked = true ∧
-    Generated.C08.goFacts.goBinArgsCopied = true ∧ Generated.C08.goFacts.wrapperFramePerCall = true := by
+    Generated.C08.goFacts.goBinArgsCopied = true ∧ Generated.C08.goFacts.wrapperFramePerCall = true ∧
+    Generated.C08.goFacts.selectCopiesCases = true := by
   rw [gofacts_tie]; decide
 
 end YaegiVerif.Props.C08
